@@ -122,6 +122,10 @@ def parse_unit(path):
                           loops={}, directives=[], unit_line=ln, indent=kv.get('indent', ''),
                           sig_subst=[], optional=bool(kv.get('optional')), no_termination=bool(kv.get('no_termination')), loop_isolation=kv.get('loop_isolation'))
             sec = ('none', None)
+        elif word == 'const':
+            # `//@const file=<path> name=<NAME>`: the repository's `const NAME: T = <expr>;` item, copied verbatim
+            unit['chunks'].append(('const', parse_kv(rest), ln))
+            sec = ('verbatim', None)
         elif word == 'stmts':
             kv = parse_kv(rest)
             cur_fn = dict(file=kv['file'], name=kv['name'], src_fn=kv['fn'], impl=kv.get('impl'), ret=kv.get('ret'),
@@ -253,6 +257,19 @@ def assemble(repo, unit):
             for k, l in enumerate(text.split('\n')):
                 out_lines.append(l)
                 origins.append(('unit', start + k))
+        elif ch[0] == 'const':
+            _, kv, start = ch
+            try:
+                src = open(f"{repo}/{kv['file']}").read()
+            except OSError as e:
+                raise ExtractError(f"anchor lost: file {kv['file']}: {e}")
+            m = re.search(r'(?m)^[ \t]*(?:pub(?:\([a-z]+\))?\s+)?(const\s+' + re.escape(kv['name']) + r'\s*:\s*[^=;]+=\s*[^;]+;)', mask(src))
+            if not m:
+                raise ExtractError(f"anchor lost: const {kv['name']} in {kv['file']}")
+            item = src[m.start(1):m.end(1)]
+            out_lines.append('pub ' + ' '.join(item.split()))
+            origins.append(('src', kv['file'], src.count('\n', 0, m.start(1)) + 1, True))
+            log.append(f"const {kv['name']} copied from {kv['file']}: `{' '.join(item.split())}`")
         else:
             _, f, ln = ch
             try:
